@@ -88,7 +88,7 @@ class Ctx:
         if len(self.violations) >= 25:
             self.violations.append({"what": what, "path": None})
             return
-        d = VERIF / "replays" / self.pid
+        d = Path(os.environ.get("VERIF_REPLAY_DIR", VERIF / "replays")) / self.pid
         d.mkdir(parents=True, exist_ok=True)
         p = d / f"{self.tier}-{len(self.violations):03d}.json"
         p.write_text(json.dumps({"property": self.pid, "what": what, "key": key, "case": case},
@@ -117,8 +117,9 @@ class Ctx:
             "violations": len(self.violations),
             "known_findings_hit": self.known_hits, "notes": self.notes,
         }
-        (VERIF / "evidence").mkdir(exist_ok=True)
-        (VERIF / "evidence" / f"{self.pid}.json").write_text(json.dumps(ev, indent=1, default=str) + "\n")
+        evd = Path(os.environ.get("VERIF_EVIDENCE_DIR", VERIF / "evidence"))     # (experiments on scratch trees write elsewhere)
+        evd.mkdir(parents=True, exist_ok=True)
+        (evd / f"{self.pid}.json").write_text(json.dumps(ev, indent=1, default=str) + "\n")
         for k in self.known:
             if self.known_hits.get(k["key"]):
                 print(f"KNOWN-FINDING: property={self.pid} {k['what']} [{k['key']}; {self.known_hits[k['key']]} case(s)]")
